@@ -19,12 +19,14 @@ Printer (what the code does now):
 * `LengthSearch`               `len(*base)` over a star search (fix 630e7747), else `|base|`
 * `AnnotatedSearch`            its inner search (transparent, not modelled)
 
+* the base of a `[…]` / `{…}` group (`NonTerminalSearch.format_as_base`, fix 9a10ad80): bare when it is
+  a plain non-terminal, in parentheses otherwise.  `pb = false` is the printer before that fix (every base
+  bare), kept for the witness `C15_search_parens_matter`.
+
 Reader: `dot_selection` is left-recursive — `a.b.c` is `(a.b).c` — and a selection is a non-terminal
-or a parenthesised `dot_selection`, optionally followed by ONE `[…]` or `{…}` group.  The printer never
-writes parentheses, so a search built from a parenthesised source (`<a>.(<b>.<c>)`, `(<a>.<b>)[0]`)
-is read back as its paren-free reading: `normSel` (left-nested dots, the group attached to the last
-selection).  `(<a>[0])[1]` prints `<a>[0][1]`, which is NOT a selector any more (the second group is a
-Python subscript of the placeholder): outside `wfSel`.
+or a parenthesised `dot_selection`, optionally followed by ONE `[…]` or `{…}` group.  The printer writes
+no parentheses around the attribute of a dot, so `<a>.(<b>.<c>)` is read back as `(<a>.<b>).<c>`:
+`normSel` (dots nested to the left, everywhere; which finds the same trees in the same order).
 
 Numbers are `NUMBER` tokens read with `int(…)`: naturals (a negative index is Python's unary minus and
 never reaches `rs_slice`).
@@ -102,19 +104,25 @@ def printPairs : List Pair → List STok
   | [p] => printPair p
   | p :: ps => printPair p ++ .comma :: printPairs ps
 
-/-- `search.format_as_spec()` -/
-def printSel : Sel → List STok
-  | .rule n => [.nt n]
-  | .attr b a => printSel b ++ .dot :: printSel a
-  | .desc b a => printSel b ++ .dotdot :: printSel a
-  | .item b sl => printSel b ++ .lbr :: (printSlices sl ++ [.rbr])
-  | .sel b ps => printSel b ++ .lbrace :: (printPairs ps ++ [.rbrace])
+/-- `base.format_as_base()`; `pb = false`: the base printed bare (before 9a10ad80) -/
+def printBase (pb : Bool) (b : Sel) (inner : List STok) : List STok :=
+  match b with
+  | .rule _ => inner
+  | _ => if pb then .lp :: (inner ++ [.rp]) else inner
 
-def printTop : Top → List STok
-  | .plain s => printSel s
-  | .star s => .star :: printSel s
-  | .lenBar s => .bar :: (printSel s ++ [.bar])
-  | .lenStar s => .len :: .lp :: .star :: (printSel s ++ [.rp])
+/-- `search.format_as_spec()` -/
+def printSel (pb : Bool) : Sel → List STok
+  | .rule n => [.nt n]
+  | .attr b a => printSel pb b ++ .dot :: printSel pb a
+  | .desc b a => printSel pb b ++ .dotdot :: printSel pb a
+  | .item b sl => printBase pb b (printSel pb b) ++ .lbr :: (printSlices sl ++ [.rbr])
+  | .sel b ps => printBase pb b (printSel pb b) ++ .lbrace :: (printPairs ps ++ [.rbrace])
+
+def printTop (pb : Bool) : Top → List STok
+  | .plain s => printSel pb s
+  | .star s => .star :: printSel pb s
+  | .lenBar s => .bar :: (printSel pb s ++ [.bar])
+  | .lenStar s => .len :: .lp :: .star :: (printSel pb s ++ [.rp])
 
 /-! ### reader: one pass over the tokens, explicit stack of open parentheses -/
 
@@ -290,26 +298,17 @@ def readTop : List STok → Option Top
 
 /-! ### the searches the spec language can express, and what the printed text denotes -/
 
-/-- the last selection of the printed chain is a bare non-terminal (it can take a `[…]` / `{…}`) -/
-def lastBare : Sel → Bool
-  | .rule _ => true
-  | .attr _ a => lastBare a
-  | .desc _ a => lastBare a
-  | .item _ _ => false
-  | .sel _ _ => false
-
 def pairsOk : List Pair → Bool
   | [] => true
   | p :: ps => !p.direct && pairsOk ps
 
-/-- printable as a selector: non-empty groups, `*` entries only, a group only behind a selection
-    that has none yet -/
+/-- printable as a selector: non-empty groups, `*` entries only -/
 def wfSel : Sel → Bool
   | .rule _ => true
   | .attr b a => wfSel b && wfSel a
   | .desc b a => wfSel b && wfSel a
-  | .item b sl => wfSel b && lastBare b && !sl.isEmpty
-  | .sel b ps => wfSel b && lastBare b && !ps.isEmpty && pairsOk ps
+  | .item b sl => wfSel b && !sl.isEmpty
+  | .sel b ps => wfSel b && !ps.isEmpty && pairsOk ps
 
 def wfTop : Top → Bool
   | .plain s => wfSel s
@@ -317,7 +316,9 @@ def wfTop : Top → Bool
   | .lenBar s => wfSel s
   | .lenStar s => wfSel s
 
-/-- reading `printSel s` behind `left`: the new left part and the selection in progress -/
+/-- reading `printSel true s` behind `left`: the new left part and the selection in progress.  The
+    base of a group is read inside its own parentheses (or is a plain non-terminal): its reading is
+    `comb` of its own `feed` from nothing. -/
 def feed : Sel → Option (Sel × Bool) → Option (Sel × Bool) × (Sel × Bool)
   | .rule n, left => (left, (.rule n, true))
   | .attr b a, left =>
@@ -327,14 +328,13 @@ def feed : Sel → Option (Sel × Bool) → Option (Sel × Bool) × (Sel × Bool
     let r := feed b left
     feed a (some (comb r.1 r.2.1, true))
   | .item b sl, left =>
-    let r := feed b left
-    (r.1, (.item r.2.1 sl, false))
+    let r := feed b none
+    (left, (.item (comb r.1 r.2.1) sl, false))
   | .sel b ps, left =>
-    let r := feed b left
-    (r.1, (.sel r.2.1 ps, false))
+    let r := feed b none
+    (left, (.sel (comb r.1 r.2.1) ps, false))
 
-/-- the paren-free reading of a search: dots nested to the left, a group attached to the last
-    selection of its base -/
+/-- what the printed form of a search is read back as: dots nested to the left, everywhere -/
 def normSel (s : Sel) : Sel :=
   let r := feed s none
   comb r.1 r.2.1
@@ -345,17 +345,22 @@ def normTop : Top → Top
   | .lenBar s => .lenBar (normSel s)
   | .lenStar s => .lenStar (normSel s)
 
-/-- the shape the front end builds from a paren-free text: every attribute of a dot is a selection
-    (a non-terminal with at most one group), every group sits on a non-terminal -/
+mutual
+/-- the shape the front end builds from a text without redundant parentheses: dots nested to the
+    left, every attribute of a dot a selection -/
+def isNorm : Sel → Bool
+  | .attr b a => isNorm b && isSelection a
+  | .desc b a => isNorm b && isSelection a
+  | .rule _ => true
+  | .item b _ => isNorm b
+  | .sel b _ => isNorm b
+/-- a non-terminal, or a group on a base in normal form -/
 def isSelection : Sel → Bool
   | .rule _ => true
-  | .item (.rule _) _ => true
-  | .sel (.rule _) _ => true
-  | _ => false
-
-def flat : Sel → Bool
-  | .attr b a => flat b && isSelection a
-  | .desc b a => flat b && isSelection a
-  | s => isSelection s
+  | .item b _ => isNorm b
+  | .sel b _ => isNorm b
+  | .attr _ _ => false
+  | .desc _ _ => false
+end
 
 end FV.PS
